@@ -84,6 +84,7 @@ def new_scn(pkgs):
             "cfg_status": "CfgOk",
             "init": {},                    # relpath below the scenario root -> bytes | "DIR"
             "ro": [],                      # relpaths made read-only before the run
+            "links": {},                   # relpath -> symlink target (relative to the link's directory)
             "gomod": GOMOD_STD, "extra_mods": {},   # reldir below m/ -> go.mod text
             "env": {},
             "tags": [],                    # injected failure classes (names of Coq fclass) and notes
@@ -349,7 +350,9 @@ def resolve(scn, S):
                      "cfg": {"tstatus": pst}})
     for r in roots:
         r["exclude"] = [{"valid": rx_valid(rx), "matches": [s_ for s_ in r["subs"] if rx_valid(rx) and go_search(rx, s_)]} for rx in r["excl"]]
-    return {"cfg": scn["cfg_status"], "roots": roots, "pkgs": pkgs, "templates": templates, "aux_ok": scn["aux_ok"]}
+    fsinfo = {"dirs": {k for k, v in scn["init"].items() if v == "DIR"}, "files": {k for k, v in scn["init"].items() if v != "DIR"},
+              "ro": set(scn["ro"])}
+    return {"cfg": scn["cfg_status"], "roots": roots, "pkgs": pkgs, "templates": templates, "aux_ok": scn["aux_ok"], "fsinfo": fsinfo}
 
 
 # ---------------- Python mirror of the selection (only to enumerate map keys / expectations) ------
@@ -517,6 +520,10 @@ def materialize(scn, S, with_init=True):
                 os.makedirs(os.path.dirname(p), exist_ok=True)
                 with open(p, "wb") as f:
                     f.write(content)
+        for rel, target in scn.get("links", {}).items():
+            p = os.path.join(S, rel)
+            os.makedirs(os.path.dirname(p), exist_ok=True)
+            os.symlink(target, p)
         for rel in scn["ro"]:
             p = os.path.join(S, rel)
             os.chmod(p, 0o555 if os.path.isdir(p) else 0o444)
@@ -531,19 +538,48 @@ def node_of(path, data):
 
 
 def snapshot(S):
+    """lstat view of the tree: directories, regular files (hash), symbolic links (their target
+    string; never followed - what they point to is in the tree and is recorded where it lives)"""
     out = {}
     for dirpath, dirnames, filenames in os.walk(S):
         rel = os.path.relpath(dirpath, S)
         segs = () if rel == "." else tuple(rel.split(os.sep))
         out[segs] = "DIR"
+        for dn in dirnames:
+            p = os.path.join(dirpath, dn)
+            if os.path.islink(p):
+                out[segs + (dn,)] = b"symlink -> " + os.readlink(p).encode()
         for fn in filenames:
             p = os.path.join(dirpath, fn)
+            if os.path.islink(p):
+                out[segs + (fn,)] = b"symlink -> " + os.readlink(p).encode()
+                continue
             try:
                 with open(p, "rb") as f:
                     out[segs + (fn,)] = node_of(p, f.read())
             except OSError:
                 out[segs + (fn,)] = b"<unreadable>"
     return out
+
+
+def resolve_links(world, S):
+    """The file that an output name denotes: symbolic links (at the output path or in a parent
+    directory) are followed, as Stat / MkdirAll / WriteFile follow them.  q["namepath"] keeps the name."""
+    root = os.path.realpath(S)
+    for p in world["pkgs"]:
+        for d in p["decls"]:
+            for q in d["reqs"]:
+                q["namepath"] = list(q["path"])
+                if q["outside"]:
+                    continue
+                real = os.path.realpath(os.path.join(S, *q["path"]))
+                rel = os.path.relpath(real, root)
+                q["path"] = [] if rel == "." else rel.split(os.sep)
+                q["outside"] = rel.startswith("..")
+
+
+def ref_of(res, q):
+    return res["ref_contents"].get(tuple(q.get("namepath", q["path"])))
 
 
 _SETPRIV = None
@@ -628,6 +664,8 @@ def execute(ctx, scn, idx, base=None):
     b = bind(scn, S)
     materialize(b, S)
     world = resolve(b, S)
+    if scn.get("links"):
+        resolve_links(world, S)
     before = snapshot(S)
     r = run_mockery(ctx, b, S)
     if r is None:
@@ -658,7 +696,7 @@ def build_case(res):
     contents, invalid = [], []
     res["unknown_content"] = 0
     for p, q in sel:
-        h = res["ref_contents"].get(tuple(q["path"]))
+        h = ref_of(res, q)
         if not q["syntax_ok"] or any((not q2["syntax_ok"]) for _, q2 in sel if q2["key"] == q["key"]):
             h = None          # the probe's boom-syntax switch changes the text (written only under formatter noop)
         if h is None:
@@ -871,6 +909,18 @@ def classes_of(world):
         if not q["prep_ok"]:
             cl.add("PrepareFailure")
         bykey.setdefault(q["key"], []).append((p, q))
+    fi = world.get("fsinfo", {"dirs": set(), "files": set(), "ro": set()})
+    for k, g in gov.items():
+        if g["outside"] or g["tstatus"] != "TOk":
+            continue
+        rel = "/".join(g["path"])
+        if rel in fi["dirs"]:
+            cl.add("OutputIsDirectory")
+        if any("/".join(g["path"][:n]) in fi["files"] for n in range(1, len(g["path"]))):
+            cl.add("OutputParentIsFile")
+        parent = "/".join(g["path"][:-1])
+        if (parent in fi["ro"] and rel not in fi["files"] and rel not in fi["dirs"]) or (rel in fi["ro"] and rel in fi["files"] and g["force"]):
+            cl.add("OutputReadOnly")
     for k, l in bykey.items():
         if len({p["path"] for p, _ in l}) > 1:
             cl.add("ConflictPackage")
@@ -1410,6 +1460,50 @@ def inj_conflict_pkg_third(rng, scn):
     scn["tags"].append("level:later-third")
 
 
+def output_names(scn):
+    """{relpath of an output file below the scenario root: governing request} of a scenario"""
+    w = resolve(bind(scn, "/S"), "/S")
+    return {"/".join(q["path"]): q for k, q in governing(w).items() if not q["outside"] and q["tstatus"] == "TOk"}
+
+
+def inj_write_fails_dir(rng, scn):
+    """a directory occupies an output path; force-file-write true or false: the file cannot be
+    written either way, the other files of the run are fine"""
+    scn["root"]["force-file-write"] = rng.random() < 0.7
+    rel = rng.choice(sorted(output_names(scn)))
+    scn["init"][rel] = "DIR"
+    scn["init"][rel + "/keep.txt"] = b"inside the directory that occupies the output path\n"
+    scn["tags"] += ["OutputIsDirectory", "level:force-%s" % scn["root"]["force-file-write"]]
+
+
+def inj_write_fails_parent_file(rng, scn):
+    """a regular file stands where a parent directory of the output should be"""
+    path = rng.choice(sorted(selecting(scn)))
+    for sc in [scn] + ([scn["base_ref"]] if scn.get("base_ref") is not None else []):
+        c = ensure_cfg(sc, path)["config"]
+        c["dir"] = "gen/{{.SrcPackageName}}/deep"
+        c["filename"] = "mocks.go"
+        c["pkgname"] = "deep"
+        for ie in (lvl(sc["packages"][path], "interfaces") or {}).values():
+            for cc in [lvl(ie, "config")] + list(lvl(ie, "configs") or []):
+                if cc:
+                    for k in ("dir", "pkgname"):
+                        cc.pop(k, None)
+    scn["init"][rng.choice(["m/gen", "m/gen/" + pkg_goname(name_of(path))])] = b"a regular file, not a directory\n"
+    scn["tags"] += ["OutputParentIsFile"]
+
+
+def inj_write_fails_readonly(rng, scn):
+    """the directory that should receive a new output file is read-only"""
+    names = output_names(scn)
+    cands = sorted(r for r in names if r.rsplit("/", 1)[0] in ("m/" + n for n in scn["pkgs"]))
+    if not cands:
+        raise IndexError("no output in a source directory")
+    rel = rng.choice(cands)
+    scn["ro"].append(rel.rsplit("/", 1)[0])
+    scn["tags"] += ["OutputReadOnly"]
+
+
 def at(fn, *levels):
     return lambda rng, scn: fn(rng, scn, levels)
 
@@ -1430,6 +1524,8 @@ INJECTIONS = {
     "TemplateExecutionLater": later("template-data", [{"boom-read": True}, {"boom-index": True}], "TemplateExecution", trap=True),
     "InvalidGoOutputLater": later("template-data", [{"boom-syntax": True}], "InvalidGoOutput", trap=True, entry=True),
     "BadRegexLaterPkg": inj_bad_regex_later_pkg,
+    "WriteFailsDir": inj_write_fails_dir, "WriteFailsParentFile": inj_write_fails_parent_file,
+    "WriteFailsReadOnly": inj_write_fails_readonly,
     "PkgLoadError": inj_pkg_load_error,
     "PkgLoadErrorFileless": lambda rng, scn: inj_pkg_load_error(rng, scn, True),
     "UnknownTemplateRootPkg": at(inj_unknown_template, "root", "pkg"), "UnknownTemplateIface": at(inj_unknown_template, "iface"),
@@ -1453,7 +1549,8 @@ TRAP_KINDS = {"TemplateExecution", "InvalidGoOutput", "TemplateExecutionLater", 
 FAIL_CLASSES = {"ListedMissing", "PkgLoadError", "UnknownTemplate", "MissingRemoteTemplate", "UnknownFormatter",
                 "ConfigUnreadable", "UnknownKey", "BadRegexSubpkg", "BadRegexInterface", "CyclicTemplate", "BadTemplatedValue",
                 "SchemaMissing", "SchemaReject", "TemplateSyntax", "TemplateExecution", "InvalidGoOutput", "PrepareFailure",
-                "ConflictPackage", "ConflictPkgName", "ConflictTemplate", "NoPackages"}
+                "ConflictPackage", "ConflictPkgName", "ConflictTemplate", "NoPackages",
+                "OutputIsDirectory", "OutputParentIsFile", "OutputReadOnly"}
 
 # ---- valid but unusual inputs ----
 GOMOD_SPELLINGS = [
@@ -1756,7 +1853,7 @@ def gen_scenarios(ctx, n_inj, n_combo, n_unusual, n_valid):
         out.append((s, s))
     for i in range(n_inj):
         s, base = apply_injections(rng, [kinds[i % len(kinds)]])
-        s["init"] = unrelated_files(rng, s)
+        s["init"] = dict(unrelated_files(rng, s), **s["init"])
         out.append((s, base))
     for i in range(n_combo):
         s, base = apply_injections(rng, rng.sample(kinds, 2))
